@@ -140,6 +140,27 @@ def add_unknowns(rng, psbt):
             po.extra_map[bytes([rng.choice([0x0F, 0xFC, 0x30])]) + rbytes(rng, rng.randrange(0, 6))] = rbytes(rng, rng.randrange(1, 9))
 
 
+def split_amounts(rng, total, n_out, change_at, zero_out):
+    """output amounts adding up to `total`; `zero_out` = "change" / "spend" makes that output carry exactly 0 sats
+    (its share goes to a neighbour), when there is another output to take it"""
+    amounts, remaining = [], total
+    for o in range(n_out):
+        amt = remaining if o == n_out - 1 else rng.randrange(1000, max(1001, remaining // (n_out - o)))
+        remaining -= amt
+        amounts.append(amt)
+    j = None
+    if zero_out == "change" and change_at is not None:
+        j = change_at
+    elif zero_out == "spend":
+        spends = [o for o in range(n_out) if o != change_at]
+        j = spends[0] if spends else None
+    if j is not None and n_out > 1:
+        k = (j + 1) % n_out
+        amounts[k] += amounts[j]
+        amounts[j] = 0
+    return amounts
+
+
 def branch_index(root_path):
     """(branch, index) of a wallet key's root path `<base>/<branch>/<index>`"""
     comps = root_path.split("/")
@@ -147,7 +168,7 @@ def branch_index(root_path):
 
 
 def build_psbt(rng, w, n_inputs=1, n_spend=1, with_change=True, global_xpubs=False, unknowns=False,
-               segwit_flag=False, fee=None, defer=False, same_addr=False, change_at=None):
+               segwit_flag=False, fee=None, defer=False, same_addr=False, change_at=None, zero_out=None):
     """create + update through PSBT.create (tx_lookup / pubkey_lookup / redeem_lookup / witness_lookup)"""
     from buidl.tx import Tx, TxIn, TxOut
     from buidl.psbt import PSBT
@@ -189,10 +210,9 @@ def build_psbt(rng, w, n_inputs=1, n_spend=1, with_change=True, global_xpubs=Fal
     n_out = n_spend + (1 if with_change else 0)
     r_at = rng.randrange(0, n_out) if with_change else None
     change_at = (change_at % n_out if change_at is not None else r_at) if with_change else None
+    amounts = split_amounts(rng, remaining, n_out, change_at, zero_out)
     for o in range(n_out):
-        last = o == n_out - 1
-        amt = remaining if last else rng.randrange(1000, max(1001, remaining // (n_out - o) ))
-        remaining -= amt
+        amt = amounts[o]
         if o == change_at:
             cidx = rng.randrange(0, 6)
             spk, rs, ws = w.scripts(1, cidx)
